@@ -114,6 +114,18 @@ var c09Programs = []program{
 			"package main\n\nimport (\n\tpk \"root/a\"\n\tvv \"ext/v\"\n)\n\nvar aliased = pk.X + vv.VV\n\nfunc al(x pk.T) pk.Inner { return pk.Inner{V: x.A} }\n",
 		}},
 	}},
+	// the package under test imports its own sub-package, a sibling whose path extends its own
+	// path, and a package whose path is a prefix of its own: all three are remote
+	{Pkgs: []progPkg{
+		{Path: "example.com/app/util", Files: []string{"package util\n\nvar Opts = 1\n\nfunc Help() int { return Opts }\n\ntype Conf struct{ N int }\n"}},
+		{Path: "example.com/apputil", Files: []string{"package apputil\n\nvar Extra = 2\n\ntype Kind int\n"}},
+		{Path: "example.com", Files: []string{"package root\n\nvar Top = 3\n\nfunc TopF() int { return Top }\n"}},
+		{Path: "example.com/app", Files: []string{
+			"package app\n\nimport (\n\t\"example.com\"\n\t\"example.com/app/util\"\n\t\"example.com/apputil\"\n)\n\nvar local = util.Opts + util.Help() + apputil.Extra + root.Top + root.TopF()\n\nfunc use(c util.Conf, k apputil.Kind) int {\n\tq := util.Conf{N: int(k)}\n\treturn q.N + c.N + local\n}\n",
+			"package app\n\nimport . \"example.com/app/util\"\n\nvar dotted = Opts + Help()\n\nfunc dot(c Conf) int { return c.N + Conf{N: 1}.N }\n",
+			"package app\n\nimport (\n\tu \"example.com/app/util\"\n\tx \"example.com/apputil\"\n)\n\nvar aliased = u.Opts + x.Extra\n\nfunc al(c u.Conf) x.Kind { return x.Kind(c.N) }\n",
+		}},
+	}},
 }
 
 type c09Input struct {
